@@ -9,7 +9,12 @@ ALGS = {
 FULL = ("md5", "sha1", "sha256", "sha512")
 
 META = {
-    "bounds": "HMAC over MD5, SHA-1, SHA-224/256/384/512 (portable build): hmac_*_init/_update/_final with the message in two "
+    "bounds": "HMAC over GOST R 34.11-2012 256/512 (ghmac.c; B = 64): the same entry points, oracle RFC 2104 over the RFC 6986 "
+              "stage structure with the two compression entry points abstracted; quick (KLEN,MLEN,SPLIT) = 256: (0,0,0),(65,1,1),"
+              "(129,64,1); 512: (32,0,0),(64,63,1),(65,65,64); thorough key lengths {0,1,32,63,64,65,66,128,129} x message "
+              "lengths {0,1,63,64,66} x splits {0,1,MLEN}; one-shot/get_digest/hex entry points on the shapes with MLEN <= 1 "
+              "(quick: on (0,0,0) of the 256-bit variant only). "
+              "HMAC over MD5, SHA-1, SHA-224/256/384/512 (portable build): hmac_*_init/_update/_final with the message in two "
               "updates, one-shot hmac_*(), *_hmac_get_digest(), *_hmac_get_digest_str(); key bytes, message bytes and "
               "every block-transform result symbolic. quick: key lengths {0, B, B+1} (B = hash block bytes) x message "
               "lengths {0, B-8/B-16 boundary, B+2} for MD5/SHA-1/SHA-256/SHA-512, one shape each for SHA-224/384. thorough: "
@@ -17,14 +22,16 @@ META = {
               "splits {0, 1, MLEN/2, MLEN}. Decided: sequence and content of all transform inputs == RFC 2104 "
               "(key hashing iff len(K) > B, zero padding, ipad/opad, inner digest fed to the outer hash), MAC bytes, "
               "hex form, reported sizes, k_opad and the embedded hash context all zero after *_final.",
-    "outside": "HMAC over GOST R 34.11-2012 (hmac_gost3411_2012_*): not checked (the Streebog streaming harness was not "
-               "finished); SSE/SHA-NI/AVX builds (vendor intrinsics); messages longer than B+2 and more than two updates "
+    "outside": "SSE/SHA-NI/AVX builds (vendor intrinsics); messages longer than B+2 and more than two updates "
                "(the update logic itself is C04's subject: any length, any chunking); compiler/optimisation matrix.",
     "assumptions": [
         "block transform abstracted: md5_transform / sha1_transform_generic / sha2_transform_block{64,128}_generic are "
         "replaced (macro redirection, common/hash/v_abs.h) by a stub that logs (chaining value, block) and returns an "
         "arbitrary chaining value per call plus arbitrary bytes in the transform's scratch area; C04(a) decides "
         "transform == standard compression function",
+        "Streebog: gost3411_2012_transform_n_generic / _1_generic replaced by logging stubs (common/hash/alg_gost.h); the "
+        "transform_n stub keeps N += bits and Sigma += block with a byte-wise reference adder; C04 (gost-xform-*, gost-kernel-*) "
+        "decides the real compression code against RFC 6986",
         "oracle order: the three hashes of RFC 2104 are expected in the order key-hash, inner, outer (the abstraction "
         "indexes results by call number)",
         "portable build selected exactly as tests/hash/main.c does (#undef __SSE2__ ...)",
@@ -32,7 +39,9 @@ META = {
     ],
     "harness_functions": ["harness", "oracle_check", "v_abs_load", "v_abs_step", "v_pad_tail", "v_check_seg", "v_check_log",
                           "v_serialise", "v_alloc", "v_buf", "v_md5_transform_stub", "v_sha1_transform_stub",
-                          "v_sha2_transform_stub", "v_sha2_transform_wrong"],
+                          "v_sha2_transform_stub", "v_sha2_transform_wrong", "expect_hash", "v_gost_tn_stub", "v_gost_t1_stub",
+                          "v_gost_havoc", "v_gost_add512", "v_gost_X", "v_gost_S", "v_gost_P", "v_gost_L", "v_gost_LPS",
+                          "v_gost_LPS_tab", "v_gost_g"],
 }
 
 
@@ -54,8 +63,49 @@ def shapes(a, tier):
     return out
 
 
-def jobs(tier):
+def gost_shapes(bits, tier):
+    """(KLEN, MLEN, SPLIT); block B = 64 for both digest sizes. Keys > 64 bytes take the key-hashing branch."""
+    if tier == "quick":
+        if bits == 256:
+            return [(0, 0, 0), (65, 1, 1), (129, 64, 1)]
+        return [(32, 0, 0), (64, 63, 1), (65, 65, 64)]
+    ks = [0, 1, 32, 63, 64, 65, 66, 128, 129]
+    ms = [0, 1, 63, 64, 66]
     out = []
+    for k in ks:
+        for m in ms:
+            for sp in sorted({0, 1, m}):
+                if sp <= m:
+                    out.append((k, m, sp))
+    return out
+
+
+def gost_jobs(tier):
+    out = []
+    for bits in (256, 512):
+        for k, m, sp in gost_shapes(bits, tier):
+            defs = {"BITS": bits, "KLEN": k, "MLEN": m, "SPLIT": sp}
+            # one-shot / get_digest / hex entry points: three more HMAC runs in the same job (symbolic execution time grows
+            # quadratically with the runs per job), so only on small shapes; the incremental interface runs in every job
+            if (tier == "quick" and bits == 256 and (k, m, sp) == gost_shapes(bits, tier)[0]) or (tier != "quick" and sp == 0 and m <= 1):
+                defs["ENTRY_POINTS"] = None
+            out.append({"name": "hmac-gost%d-K%d-M%d-S%d" % (bits, k, m, sp), "src": "ghmac.c", "defs": defs, "unwind": 700,
+                        "solver": "cadical", "flags": ["--no-malloc-may-fail"],
+                        "shape": "HMAC-Streebog-%d key %d bytes, message %d bytes as update(%d)+update(%d)%s; key, message and "
+                                 "all compression results symbolic" % (bits, k, m, sp, m - sp,
+                                                                       " + one-shot/get_digest/hex entry points" if "ENTRY_POINTS" in defs else ""),
+                        "desc": "compression log == RFC 2104 over RFC 6986 (key hash iff key > 64, zero padding, ipad/opad "
+                                "blocks, 0x01 padding, bit counts, N and Sigma re-initialised per hash, inner digest into outer hash), "
+                                "MAC == last result, k_opad and hash context wiped",
+                        "cost": 6 + (k + m) // 32, "timeout": 400 if tier == "quick" else 1500})
+    return out
+
+
+def jobs(tier):
+    out = gost_jobs(tier)
+    out.append({"name": "gost-add512w-lemma", "src": "glemma.c", "defs": {}, "unwind": 70, "solver": "cadical",
+                "shape": "all 512-bit a, b", "desc": "word-wise 512-bit adder of the Streebog stub/oracle (V_GOST_FAST) == byte-wise "
+                "reference adder v_gost_add512"})
     for a, A in ALGS.items():
         for k, m, s in shapes(a, tier):
             defs = dict({"ALG_H": '"%s"' % A["h"], "KLEN": k, "MLEN": m, "SPLIT": s}, **A["defs"])
